@@ -176,7 +176,12 @@ def _param_uses(callee: Func, pos: int) -> Set[str]:
             if isinstance(par, ast.Attribute) and par.value is n:
                 if isinstance(par.ctx, ast.Load):
                     up = parent.get(id(par))
-                    if isinstance(up, ast.Call) and up.func is par and par.attr in LIST_MUTATORS:
+                    if isinstance(up, ast.Call) and up.func is par and par.attr == 'setdefault':
+                        # `d.setdefault(k, v)` is the guarded item store `if k not in d: d[k] = v` (dict only): judged like the
+                        # subscript store `d[k] = v`, which is 'escape' below (the responder table is filled in before it is
+                        # attached to a node; a store into it is not a route-tree event)
+                        out.add('escape')
+                    elif isinstance(up, ast.Call) and up.func is par and par.attr in LIST_MUTATORS:
                         out.add('write')
                     else:
                         out.add('read')
@@ -217,7 +222,9 @@ class _TreeEvents:
     def __init__(self, p, f: Func):
         self.p = p
         self.f = f
-        self.cfg = cfg_of(f, p)
+        # (flag-sensitive graph: `ok = False; try: ..; ok = True; finally: if not ok: <undo>` has no path "raised, then undo skipped";
+        #  it is the plain graph when the function has no pure control flag)
+        self.cfg = cfg_of(f, p, refined=True)
         self.fresh = _fresh_names(p, f, NODE)
         self.local = _local_displays(f)
         self.labels: Dict[int, List[tuple]] = {}
@@ -1368,6 +1375,49 @@ def _find_call_sites(p, router: Class) -> List[_FinderSite]:
     return _finder_sites(p, router)
 
 
+def _local_table_alias(comp: Func, name: str, before: ast.AST) -> Optional[str]:
+    """The router attribute a local of `_compile` is the same object as when it is handed to the generator at `before`:
+    `name` is bound once, in the straight-line top level of the function, and either (i) to a value that is then
+    stored as `self.A = name` - the only store to self.A in the function, also at the top level before the call - or
+    (ii) to `self.A` itself after the only store to self.A.  (`return_values = []; self._return_values = return_values;
+    self._generate_ast(.., return_values, ..)` hands the generator self._return_values.)"""
+    v = _single_local_def(comp, name)
+    if v is None:
+        return None
+    top = list(comp.node.body)
+
+    def top_index(pred) -> List[int]:
+        return [i for i, st in enumerate(top) if pred(st)]
+
+    def binds(st) -> bool:
+        return isinstance(st, (ast.Assign, ast.AnnAssign)) and any(isinstance(t, ast.Name) and t.id == name
+                                                                    for t in (st.targets if isinstance(st, ast.Assign) else [st.target]))
+
+    at = top_index(binds)
+    call_at = top_index(lambda st: any(x is before for x in ast.walk(st)))
+    if len(at) != 1 or len(call_at) != 1 or not at[0] < call_at[0]:
+        return None
+    stores: Dict[str, List[ast.AST]] = {}
+    for n in walk_self(comp.node):
+        if isinstance(n, (ast.Assign, ast.AnnAssign, ast.AugAssign)):
+            for t in (n.targets if isinstance(n, ast.Assign) else [n.target]):
+                for x in ast.walk(t):
+                    if isinstance(x, ast.Attribute) and _self_attr(x) is not None and isinstance(x.ctx, (ast.Store, ast.Del)):
+                        stores.setdefault(_self_attr(x), []).append(n)
+    if _self_attr(v) is not None:
+        ta = _self_attr(v)
+        st_at = [i for i, st in enumerate(top) if any(st is s_ for s_ in stores.get(ta, []))]
+        if len(stores.get(ta, [])) == len(st_at) <= 1 and all(i < at[0] for i in st_at):
+            return ta
+        return None
+    for ta, sts in stores.items():
+        if len(sts) == 1 and isinstance(sts[0], ast.Assign) and len(sts[0].targets) == 1 and isinstance(sts[0].value, ast.Name) and sts[0].value.id == name:
+            i = [k for k, st in enumerate(top) if st is sts[0]]
+            if i and at[0] < i[0] < call_at[0]:
+                return ta
+    return None
+
+
 def r5_side_tables(run):
     p = run.project
     model = H.CxModel(p)
@@ -1386,6 +1436,10 @@ def r5_side_tables(run):
         a = _call_arg(gen, gcall, prm)
         if a is not None and _self_attr(a) is not None:
             param_attr[prm] = _self_attr(a)
+        elif isinstance(a, ast.Name):
+            ta = _local_table_alias(comp, a.id, gcall)
+            if ta is not None:
+                param_attr[prm] = ta
 
     def table_attr(g: Func, e) -> Optional[str]:
         """Router attribute denoted by expression e inside generator function g."""
@@ -1551,8 +1605,9 @@ def r5_side_tables(run):
     # as part of _compile when _compile is its ONLY user (every mention of it is a call made from _compile): its stores then happen
     # where the call stands, and the call is judged like a direct store below
     table_helpers: Dict[str, Set[str]] = {}
+    comp0 = getattr(comp, 'origin', comp)      # (the method as the class holds it; `comp` may be its alias-free view)
     for m in router.methods.values():
-        if m is comp or m.name == '__init__':
+        if m is comp0 or m.name == '__init__':
             continue
         stored = {_self_attr(e) for e in walk_self(m.node) if isinstance(e, ast.Attribute) and _self_attr(e) in table_of_gen_name.values()
                   and isinstance(e.ctx, (ast.Store, ast.Del))}
@@ -1560,7 +1615,7 @@ def r5_side_tables(run):
             continue
         mentions = [(g, e) for g in p.module(H.MODULE).all_funcs for e in walk_self(g.node)
                     if isinstance(e, ast.Attribute) and e.attr == m.name]
-        calls = {id(c.func) for g in p.module(H.MODULE).all_funcs if g is comp for c in walk_self(g.node)
+        calls = {id(c.func) for g in p.module(H.MODULE).all_funcs if g is comp0 for c in walk_self(g.node)
                  if isinstance(c, ast.Call) and p.callee(g, c) is m}
         if not mentions or any(id(e) not in calls for (_g, e) in mentions):
             raise UnknownIdiom('%s stores to side table self.%s outside _compile' % (m.qual, sorted(stored)[0]))
@@ -1691,6 +1746,36 @@ def _stack_params(p, model, writers: Set[str], funcs: List[Func]) -> Dict[str, S
                          or (isinstance(c.args[0], ast.Name) and c.args[0].id in held)):
                 out.setdefault(g.qual, set()).add(c.func.value.id)
     return out
+
+
+def _emission_helper(p, g: Func, call: ast.Call) -> Optional[Tuple[ast.AST, ast.AST]]:
+    """(receiver argument, stack argument) of `call` when it runs a helper whose whole body is the emission loop
+    `for e in <S>: <X>.append_child(e)` over two of its own parameters (`self._emit_params(parent, params_stack)`):
+    the call is that loop on the receiver / stack it is handed."""
+    h = p.callee(g, call)
+    if not isinstance(h, Func) or h is g or h.is_async or h.decorators:
+        return None
+    body = [s_ for s_ in h.node.body if not (isinstance(s_, ast.Expr) and isinstance(s_.value, ast.Constant))]
+    if len(body) != 1 or not isinstance(body[0], ast.For) or body[0].orelse:
+        return None
+    lp = body[0]
+    if not (isinstance(lp.iter, ast.Name) and isinstance(lp.target, ast.Name) and len(lp.body) == 1 and isinstance(lp.body[0], ast.Expr)
+            and isinstance(lp.body[0].value, ast.Call) and isinstance(lp.body[0].value.func, ast.Attribute)
+            and lp.body[0].value.func.attr == 'append_child' and isinstance(lp.body[0].value.func.value, ast.Name)
+            and len(lp.body[0].value.args) == 1 and not lp.body[0].value.keywords and isinstance(lp.body[0].value.args[0], ast.Name)
+            and lp.body[0].value.args[0].id == lp.target.id):
+        return None
+    S, X = lp.iter.id, lp.body[0].value.func.value.id
+    prm = [x for x in h.params() if x not in ('self', 'cls')]
+    if S not in prm or X not in prm or S == X:
+        return None
+    try:
+        xa, sa = _call_arg(h, call, X), _call_arg(h, call, S)
+    except (AnchorError, UnknownIdiom):
+        return None
+    if xa is None or sa is None:
+        return None
+    return xa, sa
 
 
 def _writer_locals(p, g: Func, writers: Set[str]) -> Set[str]:
@@ -2079,7 +2164,8 @@ def r3_delayed_params(run):
         for nm in g.params():
             if _receives_stack(p, funcs, stacks, g, nm):
                 snames.add(nm)
-        emit_nodes: Dict[int, Tuple[str, ast.For]] = {}   # body stmt node -> (receiver, loop)
+        emit_nodes: Dict[int, Tuple[str, ast.AST]] = {}   # body stmt node -> (receiver, loop / helper call)
+        emissions: List[Tuple[str, List[int], object, ast.AST]] = []   # (receiver, nodes right after the emission, construct, where)
         for lp in [n for n in walk_self(g.node) if isinstance(n, ast.For)]:
             if not (isinstance(lp.iter, ast.Name) and lp.iter.id in snames):
                 counted = {id(c.args[0]) for c in walk_self(lp.iter) if isinstance(c, ast.Call) and len(c.args) == 1 and not c.keywords
@@ -2099,8 +2185,21 @@ def r3_delayed_params(run):
             for bn in cfg.nodes_for(lp.body[0]):
                 emit_nodes[bn] = (X, lp)
             emit_nodes[iter_node] = (X, lp)
+            emissions.append((X, [y for (y, l) in cfg.succ[iter_node] if l == 'done'],
+                              'for %s in %s: %s' % (short(lp.target), short(lp.iter), short(lp.body[0], 60)), lp))
+        # the same loop run by a helper that is handed the receiver and the stack
+        for n in cfg.live_nodes():
+            if n.copy or n.kind != 'stmt' or not (isinstance(n.ast, ast.Expr) and isinstance(n.ast.value, ast.Call)):
+                continue
+            eh = _emission_helper(p, g, n.ast.value)
+            if eh is None or not (isinstance(eh[1], ast.Name) and eh[1].id in snames):
+                continue
+            if not isinstance(eh[0], ast.Name):
+                raise UnknownIdiom('%s: receiver of %s' % (g.qual, short(n.ast.value, 60)))
+            emit_nodes[n.id] = (eh[0].id, n.ast.value)
+            emissions.append((eh[0].id, [y for (y, l) in cfg.succ[n.id] if l != 'exc'], n.ast.value, n.ast))
+        for (X, starts, construct, at) in emissions:
             # forward: the next thing done with X is appending the route return
-            starts = [y for (y, l) in cfg.succ[iter_node] if l == 'done']
             bad = None
             seen = set()
             stack = list(starts)
@@ -2126,8 +2225,7 @@ def r3_delayed_params(run):
             n_b += 1
             run.check(bad is None, 'after the collected parameter assignments are emitted into %s, the next construct emitted into %s is the '
                       'route return (nothing can fail between assignment and return)' % (X, X), g,
-                      'for %s in %s: %s' % (short(lp.target), short(lp.iter), short(lp.body[0], 60)), where=g.loc(lp),
-                      witness=[bad] if bad else None, runtime_witness=W)
+                      construct, where=g.loc(at), witness=[bad] if bad else None, runtime_witness=W)
         # backward: every route return is directly preceded, in its receiver, by the emission loop
         for n in cfg.live_nodes():
             if n.copy or n.kind != 'stmt':
@@ -2285,16 +2383,28 @@ def _receives_stack(p, funcs: List[Func], stacks: Dict[str, Set[str]], g: Func, 
 # R4 index guards
 # ---------------------------------------------------------------------------
 
-def _linear_in(e, name: str) -> Optional[int]:
-    """c if e == name + c (c an int literal), else None."""
-    if isinstance(e, ast.Name) and e.id == name:
-        return 0
+def _linear_in(e, name: str, f: Optional[Func] = None, _depth: int = 0) -> Optional[int]:
+    """c if e == name + c (c an int constant), else None.  With `f` given a local of f that is bound exactly once by a
+    plain assignment stands for its value (`next_level = level + 1`): `name` itself is never re-bound (checked by the
+    caller), so such a local holds name + c wherever it can be read."""
+    if isinstance(e, ast.Name):
+        if e.id == name:
+            return 0
+        if f is not None and _depth < 4:
+            v = _single_local_def(f, e.id)
+            if v is not None:
+                return _linear_in(v, name, f, _depth + 1)
+        return None
     if isinstance(e, ast.BinOp) and isinstance(e.op, (ast.Add, ast.Sub)):
         l, r = e.left, e.right
-        if isinstance(l, ast.Name) and l.id == name and isinstance(r, ast.Constant) and type(r.value) is int:
-            return r.value if isinstance(e.op, ast.Add) else -r.value
-        if isinstance(e.op, ast.Add) and isinstance(r, ast.Name) and r.id == name and isinstance(l, ast.Constant) and type(l.value) is int:
-            return l.value
+        if isinstance(r, ast.Constant) and type(r.value) is int:
+            c = _linear_in(l, name, f, _depth + 1)
+            if c is not None:
+                return c + (r.value if isinstance(e.op, ast.Add) else -r.value)
+        if isinstance(e.op, ast.Add) and isinstance(l, ast.Constant) and type(l.value) is int:
+            c = _linear_in(r, name, f, _depth + 1)
+            if c is not None:
+                return c + l.value
     return None
 
 
@@ -2304,11 +2414,10 @@ def _guard_classes(p, model: H.CxModel) -> Dict[str, Tuple[int, int]]:
     comp = model.compile_func
     path = model.gen_params[0]
     len_names = set()
-    for n in walk_self(comp.node):
-        if isinstance(n, ast.Constant) and isinstance(n.value, str):
-            m = re.match(r'^\s*(\w+)\s*=\s*len\(\s*%s\s*\)\s*$' % re.escape(path), n.value)
-            if m:
-                len_names.add(m.group(1))
+    for text in model.compile_strings():
+        m = re.match(r'^\s*(\w+)\s*=\s*len\(\s*%s\s*\)\s*$' % re.escape(path), text)
+        if m:
+            len_names.add(m.group(1))
     if len(len_names) != 1:
         raise AnchorError('%s: expected one `<name> = len(%s)` prologue line, found %d' % (comp.qual, path, len(len_names)))
     ln_name = len_names.pop()
@@ -2330,14 +2439,14 @@ def _guard_classes(p, model: H.CxModel) -> Dict[str, Tuple[int, int]]:
     return out
 
 
-def _guard_ok(call: ast.Call, pos: Tuple[int, int], level: str) -> bool:
+def _guard_ok(call: ast.Call, pos: Tuple[int, int], level: str, f: Optional[Func] = None) -> bool:
     """`if path_len <cmp> <n>` implies path_len > level."""
     if call.keywords or max(pos) >= len(call.args):
         return False
     cmp_, n = call.args[pos[0]], call.args[pos[1]]
     if not (isinstance(cmp_, ast.Constant) and isinstance(cmp_.value, str)):
         return False
-    c = _linear_in(n, level)
+    c = _linear_in(n, level, f)
     if c is None:
         return False
     return {'>': c >= 0, '>=': c >= 1, '==': c >= 1}.get(cmp_.value.strip(), False)
@@ -2359,7 +2468,7 @@ def _guard_facts(p, g: Func, cfg, guards, level: Optional[str], init: Set[str], 
                 inside = v.id in fs
             elif isinstance(v, ast.Call):
                 t = p.callee(g, v)
-                if isinstance(t, Class) and t.qual in guards and level is not None and _guard_ok(v, guards[t.qual], level):
+                if isinstance(t, Class) and t.qual in guards and level is not None and _guard_ok(v, guards[t.qual], level, g):
                     inside = True
                 elif isinstance(t, Func) and t.qual in desc_summary:
                     names = [x.arg for x in t.node.args.posonlyargs + t.node.args.args]
@@ -2414,7 +2523,7 @@ def r4_index_guards(run):
     rec = _recursive_calls(p, gen)
     level = None
     for prm in gen.params()[1:]:
-        cs = [_linear_in(_call_arg(gen, c, prm), prm) if _call_arg(gen, c, prm) is not None else None for c in rec]
+        cs = [_linear_in(_call_arg(gen, c, prm), prm, gen) if _call_arg(gen, c, prm) is not None else None for c in rec]
         if cs and all(c is not None and c >= 1 for c in cs):
             level = prm
     if level is None:
@@ -2434,7 +2543,7 @@ def r4_index_guards(run):
                     raise UnknownIdiom('%s: %s' % (g.qual, short(c, 60)))
                 if g is not gen:
                     raise UnknownIdiom('%s creates a path-indexing construct outside the generator proper' % g.qual)
-                k = _linear_in(c.args[pos], level)
+                k = _linear_in(c.args[pos], level, g)
                 if k is None:
                     raise UnknownIdiom('%s: index %s of %s is not %s + constant' % (g.qual, short(c.args[pos], 40), short(c.func, 40), level))
                 n_i += 1
@@ -2471,6 +2580,16 @@ def r4_index_guards(run):
         if n.copy or n.kind != 'stmt' or not isinstance(n.ast, ast.Expr) or not isinstance(n.ast.value, ast.Call):
             continue
         c = n.ast.value
+        eh = _emission_helper(p, gen, c)
+        if eh is not None and isinstance(eh[1], ast.Name) and eh[1].id in stacks:
+            # the emission loop run by a helper: the elements of the parameter stack go into the receiver it is handed
+            if not isinstance(eh[0], ast.Name):
+                raise UnknownIdiom('%s: receiver of %s' % (gen.qual, short(c, 60)))
+            n_ii += 1
+            run.check(eh[0].id in facts[n.id],
+                      'a construct reading %s[%s] is emitted into a block that only executes under this level\'s length guard' % (path, level),
+                      gen, c, where=gen.loc(c), runtime_witness=W)
+            continue
         if not (isinstance(c.func, ast.Attribute) and c.func.attr == 'append_child' and len(c.args) == 1):
             continue
         arg = c.args[0]
@@ -2557,11 +2676,10 @@ def _ambient_names(model: H.CxModel) -> Set[str]:
     import builtins
     import re
     ambient = set(model.gen_params) | set(dir(builtins))
-    for n in walk_self(model.compile_func.node):
-        if isinstance(n, ast.Constant) and isinstance(n.value, str):
-            m = re.match(r'^\s*(\w+)\s*=\s*\S', n.value)
-            if m and n.value is not model.header:
-                ambient.add(m.group(1))
+    for text in model.compile_strings():
+        m = re.match(r'^\s*(\w+)\s*=\s*\S', text)
+        if m and text != model.header:
+            ambient.add(m.group(1))
     return ambient
 
 
@@ -2765,7 +2883,7 @@ def _src_format_calls(p, cx: H.CxClass) -> List[Tuple[ast.Call, str]]:
 
     for n in ast.walk(src.node):
         if isinstance(n, ast.BinOp) and isinstance(n.op, ast.Mod) and isinstance(n.left, ast.Constant) and isinstance(n.left.value, str):
-            raise UnknownIdiom('%s: source text built by %s (only str.format templates and f-strings are read)' % (src.qual, short(n, 60)))
+            n = H.percent_as_format(n, src.qual)      # '..%s..' % (x,) read like '..{0}..'.format(x); unreadable conversions are UnknownIdiom
         if isinstance(n, ast.JoinedStr):
             if id(n) in nested:
                 continue   # the format-spec part of a field: fstring_as_format refuses the field itself
@@ -2981,7 +3099,8 @@ def r9_rendered_text(run):
                                       'over two lines and every find() raises SyntaxError')
     # the validator runs on every segment before anything is inserted (order: R1 b)
     add = T.add_route
-    run.check(any(isinstance(c, ast.Call) and p.callee(add, c) is T.validator for c in walk_self(add.node)),
+    # (by add_route itself, or by the method of the same class it hands the split template to)
+    run.check(any(isinstance(c, ast.Call) and p.callee(g, c) is T.validator for (g, _sv) in T._segment_loops() for c in walk_self(g.node)),
               'add_route validates every template segment (%s)' % T.validator.name, add, 'call of %s' % T.validator.name, where=add.loc())
 
 
@@ -3808,7 +3927,12 @@ def _payload_fields(p) -> Tuple[Func, List[str]]:
     fields: List[str] = []
     for n in walk_self(find.node):
         if isinstance(n, ast.Return) and n.value is not None:
-            for x in ast.walk(n.value):
+            # (a local bound once stands for its value: `method_map = node.method_map or {}; return node.resource, method_map, ..`)
+            exprs = []
+            for e in (n.value.elts if isinstance(n.value, ast.Tuple) else [n.value]):
+                v = _single_local_def(find, e.id) if isinstance(e, ast.Name) else None
+                exprs.append(v if v is not None else e)
+            for x in ast.walk(ast.Tuple(elts=exprs, ctx=ast.Load())):
                 if isinstance(x, ast.Attribute) and isinstance(x.ctx, ast.Load) and isinstance(x.value, ast.Name) \
                         and x.attr in own and x.attr not in fields:
                     fields.append(x.attr)
@@ -3945,7 +4069,9 @@ def r17_payload_group(run):
     run.use(find)
     run.sample({'payload fields read by find()': fields})
     n_ob = 0
-    for g in [add] + [add.nested[k] for k in sorted(add.nested)]:
+    group_funcs = [add] + [add.nested[k] for k in sorted(add.nested)]
+    param_verdicts: Dict[Tuple[str, str], List[bool]] = {}     # (helper, its parameter the fields are stored on) -> verdicts of its stores
+    for g in group_funcs:
         cfg = cfg_of(g, p)
         stores: Dict[Tuple[str, str], List[int]] = {}
         for n in cfg.live_nodes():
@@ -3989,12 +4115,36 @@ def r17_payload_group(run):
                     if wit is None:
                         wit = flow.describe_path(cfg, path)
                 n_ob += 1
+                if g is not add and recv in g.params():
+                    param_verdicts.setdefault((g.qual, recv), []).append((fld, not missing))
                 run.check(not missing, '%s: a path that stores the payload field %s of node `%s` stores every other field find() answers with '
                           '(%s) on the same node' % (g.name, fld, recv, ', '.join(f_ for f_ in fields if f_ != fld)), g,
                           '%s ; never on this path: %s' % (short(sn.ast, 100), ', '.join('%s.%s' % (recv, m) for m in missing)) if missing
                           else sn.ast, where='%s:%s' % (g.file, sn.lineno), witness=wit,
                           runtime_witness="add_route('/a/b', R1); add_route('/a', R2): find('/a') answers R2's resource with the "
                                           'uri_template / responders the node had before (None for an interior node)')
+    # a nested helper that stores the group on a node it is handed (`def bind(node): node.method_map = ..; node.resource = ..;
+    # node.uri_template = ..`): every call of it from add_route / a sibling is one more place where a node receives its payload,
+    # and it receives the whole group exactly when the helper's own stores do (judged above)
+    for (hq, prm), fv in sorted(param_verdicts.items()):
+        h = p.func(hq)
+        flds, verdicts = [x[0] for x in fv], [x[1] for x in fv]
+        for g in group_funcs:
+            if g is h:
+                continue
+            for c in walk_self(g.node):
+                if isinstance(c, ast.Call) and p.callee(g, c) is h:
+                    try:
+                        a = _call_arg(h, c, prm)
+                    except (AnchorError, UnknownIdiom):
+                        a = None
+                    if a is None:
+                        raise UnknownIdiom('%s: the node handed to %s in %s is not read' % (g.qual, h.name, short(c, 60)))
+                    for fld, ok in zip(flds, verdicts):
+                        n_ob += 1
+                        run.check(ok, '%s: the node handed to %s receives the payload field %s together with every other field find() answers '
+                                  'with (%s)' % (g.name, h.name, fld, ', '.join(f_ for f_ in fields if f_ != fld)), g,
+                                  '%s [%s]' % (short(c, 80), fld), where=g.loc(c))
     if n_ob == 0:
         raise AnchorError('no helper of add_route stores a payload field (%s) on a node' % ', '.join(fields))
 
